@@ -181,6 +181,7 @@ def run(chk):
         if len(chk.samples) < 5 and nontrivial:
             chk.sample({'kind': case['c']['kind'], 'history': [(e['op'], case['faults'][e['k'] - 1]['name'] if e['op'] == 'reject' else e['k']) for e in h]})
     recorded(chk, rng, cases)
+    analysis_level(chk, rng)
 
 
 def recorded(chk, rng, cases):
@@ -241,6 +242,103 @@ def recorded(chk, rng, cases):
                           f'{meta[i - 1]}: trace rejected by TLC at event {at} ({e.get("op")}, fault {e.get("fault")})')
     chk.extra['recorded_traces'] = len(traces)
     chk.extra['recorded_traces_accepted'] = len(accepted)
+
+
+def analysis_level(chk, rng):
+    """rejections met through Analysis.run / process: a container whose traces have another length, a batch whose preprocess
+    raises in the middle of a container, metadata the selection function cannot use - before any accepted batch, between accepted
+    containers, and in the middle of one.  Afterwards: count and results are those of the accepted batches only."""
+    import scared
+    from .. import pipeline as pl
+    old = scared.Container._BATCH_SIZE
+    kinds = ['CPA', 'DPA', 'ANOVA', 'MIA'] if chk.tier == 'quick' else pl.KINDS
+    try:
+        for ki, kind in enumerate(kinds):
+            for mode in ('attack', 'reverse'):
+                for scenario in ('bad-first', 'bad-between', 'bad-mid-container', 'bad-metadata-first'):
+                    prec = 'float64' if (ki + len(scenario)) % 2 else 'float32'
+                    rs = np.random.RandomState(chk.seed % 1000 + ki * 17 + len(scenario))
+                    a, mk = pl.build(kind, mode, prec)
+                    pp = pl.preprocesses()
+                    bs = int(rs.randint(2, 5))
+                    scared.set_batch_size(bs)
+                    n1, n2 = int(rs.randint(3, 9)), bs + int(rs.randint(1, 5))
+                    ths1, s1, v1, _ = pl.make_set(rs, n1, 6, 2, 0)
+                    ths2, s2, v2, _ = pl.make_set(rs, n2, 6, 2, n1)
+                    good1, good2 = scared.Container(ths1), scared.Container(ths2)
+                    short = scared.Container(ths2, frame=slice(0, 4))                    # other trace length
+                    calls = {'n': 0}
+
+                    @scared.preprocess
+                    def boom(traces):
+                        calls['n'] += 1
+                        if calls['n'] == 3:                                               # 1 = trace-size probe, 2 = first batch, 3 = second batch
+                            raise ValueError('preprocess failure in the second batch')
+                        return traces
+                    mid = scared.Container(ths2, preprocesses=[boom])
+                    calls1 = {'n': 0}
+
+                    @scared.preprocess
+                    def boom1(traces):
+                        calls1['n'] += 1
+                        if calls1['n'] == 2:                                              # the first batch
+                            raise ValueError('preprocess failure in the first batch')
+                        return traces
+                    first_fail = scared.Container(ths2, preprocesses=[boom1])
+                    nometa = scared.Container(scared.traces.read_ths_from_ram(samples=s2, other=v2))
+                    accepted = []          # (samples, v, row indices)
+                    steps = {'bad-first': [('bad', first_fail), ('ok', good1, s1, v1, n1), ('bad', short), ('ok', good2, s2, v2, n2)],
+                             'bad-between': [('ok', good1, s1, v1, n1), ('bad', short), ('ok', good2, s2, v2, n2)],
+                             'bad-mid-container': [('ok', good1, s1, v1, n1), ('mid', mid, s2, v2, min(bs, n2)), ('ok', good1, s1, v1, n1)],
+                             'bad-metadata-first': [('bad', nometa), ('ok', good2, s2, v2, n2)]}[scenario]
+                    bad = None
+                    for st_ in steps:
+                        before = int(a.processed_traces)
+                        try:
+                            a.run(st_[1])
+                            raised = False
+                        except Exception as ex:           # noqa
+                            raised = True
+                        if st_[0] == 'ok':
+                            if raised:
+                                bad = 'a valid run after a rejected one is accepted'
+                                break
+                            accepted.append((st_[2], st_[3], np.arange(st_[4])))
+                        elif st_[0] == 'bad':
+                            if not raised:
+                                bad = 'the faulty container is refused'
+                                break
+                            if int(a.processed_traces) != before:
+                                bad = 'a refused batch is not counted'
+                                break
+                        else:
+                            if not raised:
+                                bad = 'the failing batch makes run() raise'
+                                break
+                            accepted.append((st_[2], st_[3], np.arange(st_[4])))          # the batches before the failing one were accepted
+                            if st_[4] >= len(st_[2]):
+                                accepted.pop()
+                                accepted.append((st_[2], st_[3], np.arange(len(st_[2]))))
+                    chk.count(('A', kind, mode, scenario, prec), nontrivial=True)
+                    chk.traces_validated += 1
+                    if not bad:
+                        want_n = sum(len(ix) for _, _, ix in accepted)
+                        if int(a.processed_traces) != want_n:
+                            bad = f'processed-trace count is that of the accepted batches only ({int(a.processed_traces)} vs {want_n})'
+                    if not bad and accepted:
+                        one = mk()
+                        xs = [pl.expected_arrays(a, s_, v_, ix, 'all', [], pp) for s_, v_, ix in accepted]
+                        one.update(np.concatenate([x for x, _ in xs]), np.concatenate([d for _, d in xs]))
+                        ref = np.asarray(one.compute())
+                        a.compute_results()
+                        if not np.array_equal(np.asarray(a.results), ref, equal_nan=True):
+                            bad = 'every later result is that of the accepted batches only'
+                    if bad:
+                        chk.violation(f'analysis:{kind}{mode}:{scenario}:{bad.split(" (")[0]}', {'property': 'C16', 'part': 'analysis', 'kind': kind, 'mode': mode, 'scenario': scenario, 'precision': prec, 'batch_size': bs,
+                                                                                               'sizes': [n1, n2], 'clause': bad}, f'{kind}{mode} {scenario}: {bad}')
+        chk.sample({'analysis_level_scenarios': ['bad-first', 'bad-between', 'bad-mid-container', 'bad-metadata-first']})
+    finally:
+        scared.Container._BATCH_SIZE = old
 
 
 def replay(chk, path):
